@@ -159,9 +159,10 @@ def run_tlc(module, cfg, name, workers=8, timeout=900, env=None, simulate=None,
         m = re.match(r"^The depth of the complete state graph search is (\d+)", line)
         if m:
             r.depth = int(m.group(1))
-        m = re.match(r"^<(\w+) line \d+, col \d+ to line \d+, col \d+ of module (\w+)>: (\d+):(\d+)", line)
+        m = re.match(r"^<(\w+) line \d+, col \d+ to line \d+, col \d+ of module (\w+)(?: \([\d ]+\))?>: (\d+):(\d+)", line)
         if m:
-            r.coverage[m.group(1)] = (int(m.group(3)), int(m.group(4)))
+            prev = r.coverage.get(m.group(1), (0, 0))
+            r.coverage[m.group(1)] = (prev[0] + int(m.group(3)), prev[1] + int(m.group(4)))
             continue
         m = re.match(r"^Error: Invariant (\S+) is violated", line)
         if m:
@@ -415,3 +416,60 @@ def emit_and_replay(run, module, cfg, name, harness_cmd, timeout=900, header=Non
     mism = read_ndjson(outp)
     run.traces += len(cases)
     return cases, mism, summ, res
+
+
+# ----------------------------------------------------------------------------- impl -> spec trace validation
+
+def validate_trace(run, module, cfg, name, trace_path, timeout=900, key=None):
+    """Runs the Trace_* specification over a recorded ndjson trace. Returns TlcResult or None when the
+    trace was rejected / an invariant failed (a mismatch is recorded)."""
+    nlines = sum(1 for _ in open(trace_path))
+    meta = workdir("tlc_" + name)
+    e = dict(os.environ)
+    e["JAVA_TOOL_OPTIONS"] = "-Xss1g -Dtlc2.tool.queue.IStateQueue=StateDeque"
+    e["TRACE"] = trace_path
+    cmd = ["timeout", str(timeout), "java", "-XX:+UseParallelGC", "-Xmx4g", "-cp", TLA_CP, "tlc2.TLC",
+           "-workers", "1", "-metadir", meta, "-cleanup", "-noGenerateSpecTE", "-config", cfg, module + ".tla"]
+    t0 = time.time()
+    p = subprocess.run(cmd, cwd=SPEC, env=e, stdout=subprocess.PIPE, stderr=subprocess.STDOUT, text=True,
+                       errors="replace")
+    out = p.stdout
+    with open(os.path.join(WORK, "tlc_%s.out" % name), "w") as f:
+        f.write(out)
+    shutil.rmtree(meta, ignore_errors=True)
+    log("TLC trace %s/%s (%d events): %.1fs" % (module, cfg, nlines, time.time() - t0))
+    if p.returncode == 124:
+        raise ToolError("TLC timeout validating %s" % trace_path)
+    r = TlcResult()
+    m = re.search(r"(\d+) states generated, (\d+) distinct states found", out)
+    if m:
+        r.generated, r.distinct = int(m.group(1)), int(m.group(2))
+    k = dict(key or {})
+    m = re.search(r'<<"TRACE-REJECTED", (\d+), "?(.*?)"?>>\s*$', out, re.M)
+    if m:
+        idx = int(m.group(1))
+        ev = None
+        try:
+            with open(trace_path) as f:
+                lines = f.readlines()
+            ev = json.loads(lines[idx - 1]) if idx - 1 < len(lines) else "end"
+            ctx = [json.loads(x) for x in lines[max(0, idx - 8): idx + 2]]
+        except Exception:
+            ctx = []
+        k.update({"kind": "trace rejected", "event": (ev or {}).get("e") if isinstance(ev, dict) else ev})
+        run.mismatch(k, {"first_unmatched_index": idx, "first_unmatched_event": ev, "context": ctx,
+                         "trace": trace_path})
+        return None
+    m = re.search(r"Error: Invariant (\S+) is violated", out)
+    if m:
+        k.update({"kind": "trace invariant", "invariant": m.group(1)})
+        idx = out.find("Error: Invariant")
+        run.mismatch(k, {"tlc": out[idx: idx + 5000], "trace": trace_path})
+        return None
+    if "Model checking completed. No error has been found." not in out:
+        idx = out.find("Error:")
+        raise ToolError("TLC failed validating trace %s: %s" % (trace_path, out[idx: idx + 3000] if idx >= 0 else out[-2000:]))
+    if r.distinct != nlines + 1:
+        raise ToolError("trace %s: %d events but %d states" % (trace_path, nlines, r.distinct))
+    r.ok = True
+    return r
